@@ -248,6 +248,8 @@ type c15H struct {
 	goodDesired map[string]string   // desired content key per chain at that time
 	haveGood    bool
 
+	emptyChainDeletedOOB bool // an empty Felix chain was deleted out-of-band since the last verified apply
+
 	ops        []string
 	classes    map[string]bool
 	nontrivial bool
@@ -577,6 +579,10 @@ func (h *c15H) apply(label string) bool {
 		return true
 	}
 	h.checkExact("after Apply (" + label + ")")
+	if h.emptyChainDeletedOOB {
+		h.classes["empty-chain-deleted-oob-then-resync"] = true
+		h.emptyChainDeletedOOB = false
+	}
 	if h.sinceGoodFaults > 0 && h.foreignRuleCount() > 0 {
 		h.nontrivial = true
 	}
@@ -846,6 +852,35 @@ func TestVerifC15IptablesSync(t *testing.T) {
 						return []string{fmt.Sprintf("-R %s %d %s", c, i, nr)}, "ext-stale-hash"
 					}
 				}
+			case kind == 9 && len(fcs) > 0:
+				// Another tool deletes one of Felix's chains: it removes every rule that jumps to
+				// it (the kernel refuses to delete a referenced chain), flushes it and deletes it.
+				// Empty chains (empty dispatch chain, force-programmed empty policy chain) are preferred.
+				var empty []string
+				for _, c := range fcs {
+					if len(tab.Chains[c].Rules) == 0 {
+						empty = append(empty, c)
+					}
+				}
+				pool, class := fcs, "ext-delete-felix-chain"
+				if len(empty) > 0 && rapid.IntRange(0, 3).Draw(t, "preferEmpty") > 0 {
+					pool, class = empty, "ext-delete-empty-felix-chain"
+				}
+				victim := rapid.SampledFrom(pool).Draw(t, "chain")
+				if len(tab.Chains[victim].Rules) == 0 {
+					class = "ext-delete-empty-felix-chain"
+				}
+				var lines []string
+				for _, c := range tab.ChainNames() {
+					rules := tab.Chains[c].Rules
+					for i := len(rules) - 1; i >= 0; i-- {
+						if ktsim.IptRuleTarget(rules[i]) == victim {
+							lines = append(lines, fmt.Sprintf("-D %s %d", c, i+1))
+						}
+					}
+				}
+				lines = append(lines, "-F "+victim, "-X "+victim)
+				return lines, class
 			case kind == 8: // new foreign chain, or a new stale Felix chain
 				if rapid.Bool().Draw(t, "felixLooking") {
 					return []string{":cali-intruder - -", "-A cali-intruder -j ACCEPT"}, "ext-create-felix-prefixed-chain"
@@ -861,7 +896,7 @@ func TestVerifC15IptablesSync(t *testing.T) {
 				i := rapid.IntRange(0, len(c15Chains)-1).Draw(t, "chainIdx")
 				c := c15Chains[i]
 				spec := c15ChainSpec{Force: rapid.IntRange(0, 5).Draw(t, "force") == 0}
-				n := rapid.IntRange(0, 4).Draw(t, "len")
+				n := rapid.SampledFrom([]int{0, 0, 1, 2, 3, 4}).Draw(t, "len")
 				if old, ok := h.model.chains[c]; ok && len(old.Rules) > 0 && rapid.Bool().Draw(t, "tweakOld") {
 					// small delta to an existing chain: keep a prefix, change the rest
 					keep := rapid.IntRange(0, len(old.Rules)).Draw(t, "keep")
@@ -940,6 +975,9 @@ func TestVerifC15IptablesSync(t *testing.T) {
 				lines, class := pickEdit(t)
 				if h.external(lines...) {
 					h.classes[class] = true
+					if class == "ext-delete-empty-felix-chain" {
+						h.emptyChainDeletedOOB = true
+					}
 					h.ops = append(h.ops, "e")
 				}
 			},
@@ -950,6 +988,9 @@ func TestVerifC15IptablesSync(t *testing.T) {
 					h.raceFired++
 					if h.external(lines...) {
 						h.classes["race-"+class] = true
+						if class == "ext-delete-empty-felix-chain" {
+							h.emptyChainDeletedOOB = true
+						}
 					}
 				})
 				h.ops = append(h.ops, "r")
